@@ -12,3 +12,15 @@ package data
 //@   floats real
 //@   requires hdp.raw != nil
 //@   modifies everything
+
+// Request construction and response decoding (protobuf, net/http): not verified; they do not reach into the backend
+// object that calls them (ownership assumption).
+//@ func NewMetricsRequest
+//@   trusted
+//@   ensures  result1 == nil ==> result0 != nil
+//@   modifies everything
+//@   preserves otlp.Backend
+//@ func ProcessMetricResponse
+//@   trusted
+//@   modifies everything
+//@   preserves otlp.Backend
